@@ -536,6 +536,19 @@ def rule_f(ctx):
     am.let("canvas", "np.zeros(shape, dtype=dtype)")
     zero = am.has(f.node, "image = ImageType(img=canvas, **meta)")
     ctx.ob(R, f.qname, "the canvas array starts from zeros", zero is not None, "", f.node)
+    # each input is pasted onto the canvas through extract_quadrilateral_ROI: outside the input the warp must contribute 0 (OpenCV's default
+    # constant border of value 0), otherwise the sum over the canvas is not the sum of the inputs
+    eq = ctx.model.func("darsia.image.subregions", "extract_quadrilateral_ROI")
+    for c_ in ast.walk(eq.node):
+        if isinstance(c_, ast.Call) and norm(c_.func) in ("cv2.warpPerspective", "cv2.warpAffine", "cv2.remap"):
+            kw_ = {k_.arg: k_.value for k_ in c_.keywords}
+            bm, bv = kw_.get("borderMode"), kw_.get("borderValue")
+            bm_ok = bm is None or norm(bm) == "cv2.BORDER_CONSTANT"
+            bv_ok = bv is None or (isinstance(bv, ast.Constant) and bv.value in (0, 0.0)) or norm(bv) in ("(0, 0, 0)", "(0, 0, 0, 0)")
+            ctx.ob(R, eq.qname, f"`{norm(c_.func)}` pads with zeros outside the source image", bm_ok and bv_ok,
+                   f"borderMode={norm(bm) if bm is not None else 'default'}, borderValue={norm(bv) if bv is not None else 'default'}: superpose adds every warped input to the canvas, so "
+                   "whatever the warp invents outside an input (replicated or reflected edge values) is added to the superposition -- its integral exceeds the sum of the inputs' integrals",
+                   c_, evidence=(bm is not None and norm(bm).startswith("cv2.BORDER_") and not bm_ok) or (isinstance(bv, ast.Constant) and not bv_ok))
     ctx.floor(R, 1)
 
 
